@@ -465,9 +465,29 @@ func caseLabels(c Case, obs *Obs) []string {
 			set["graph:"+l] = true
 		}
 	}
+	cfgRaiseBefore := false // a config-on-list statement in an earlier script
 	for si, s := range c.Scripts {
 		raised := false
+		cfgRaiseHere := false
 		for k, st := range s.Stmts {
+			thr := false
+			for _, cl := range st.Calls {
+				thr = thr || Throttled[cl]
+			}
+			if thr && cfgRaiseHere {
+				set["class:config-raise-then-throttled-call-same-script"] = true
+			}
+			if thr && cfgRaiseBefore {
+				set["class:config-raise-then-throttled-call-later-script"] = true
+			}
+			if st.Kind == "image.config/on-list" {
+				cfgRaiseHere = true
+				if st.Safe {
+					set["class:config-raise-under-pcall"] = true
+				} else {
+					set["class:config-raise-unprotected"] = true
+				}
+			}
 			set["stmt:"+st.Kind] = true
 			if st.Mut != "" {
 				set["MUTATING:"+st.Mut] = true
@@ -494,7 +514,13 @@ func caseLabels(c Case, obs *Obs) []string {
 				set["ctl:conditional"] = true
 			}
 		}
+		cfgRaiseBefore = cfgRaiseBefore || cfgRaiseHere
 		if obs != nil && si < len(obs.Scripts) {
+			for _, m := range append([]string{obs.Scripts[si].Err}, obs.Scripts[si].Msgs...) {
+				if strings.Contains(m, "Image methods are not available") {
+					set["outcome:config-call-raised-after-taking-throttle"] = true
+				}
+			}
 			if obs.Scripts[si].Failed {
 				raised = true
 				set["outcome:script-failed"] = true
